@@ -264,10 +264,32 @@ class C09(CleanBase):
             cases.append({"ci": False, "updvar": "unset", "colour": False, "ops": ops,
                           "meta": {"mode": "hostile-dir ci=%s upd=%s sort=%s" % (ci, upd, sort), "ci": ci, "upd": upd, "sort": sort,
                                    "tests": [hx(b"TestLive")], "ncalls": {hx(b"TestLive"): 1}}})
+        # an existing but EMPTY snapshot directory that a call addressed (the call fails where nothing may be created, or
+        # creates the first file elsewhere): Clean removes obsolete FILES in clean mode - a directory never, in no mode
+        for i in range(max(10, n // 15)):
+            r = rng.fork()
+            ci, upd = r.choice(G.ENVS)
+            opt = r.choice([False, False, None])
+            api = r.choice(["snap", "json", "yaml", "stand", "standjson"])
+            mk = {"snap": lambda: G.op_match_snap(1, b"TestEmpty", [b"v"]), "json": lambda: G.op_match_doc("json", 1, b"TestEmpty", b'{"a":1}'),
+                  "yaml": lambda: G.op_match_doc("yaml", 1, b"TestEmpty", b"a: 1\n"), "stand": lambda: G.op_match_doc("stand", 1, b"TestEmpty", b"v"),
+                  "standjson": lambda: G.op_match_doc("standjson", 1, b"TestEmpty", b'{"a":1}')}[api]
+            ops = [{"op": "putdir", "path": hx(b"emptydir/__snapshots__")}, G.op_putfile(b"emptydir/notes.txt", b"next to it"),
+                   G.op_setenv(True if opt is None else ci, upd), G.op_newconfig(dir=b"emptydir/__snapshots__", upd=opt), mk(), G.op_end(b"TestEmpty"),
+                   {"op": "dumpfs"}, {"op": "clean", "sort": r.chance(1, 2), "count": 1, "colour": False}, {"op": "dumpfs"}]
+            cases.append({"ci": False, "updvar": "unset", "colour": False, "ops": ops, "meta": {"mode": "empty-dir", "emptydir": True}})
         return cases
 
     def oracle(self, case, ops, results):
         meta = case["meta"]
+        dl = [r for r in results if r[0] == "dirs"]
+        gone = []
+        if len(dl) >= 2 and dl[0][2].get("list") not in (None, "*") and dl[1][2].get("list") not in (None, "*"):
+            d0 = set(x for x in dl[0][2]["list"].split(",") if x != "~")
+            d1 = set(x for x in dl[1][2]["list"].split(",") if x != "~")
+            gone = [{"msg": "Clean removed the directory %r (directories are never touched, whatever the mode)" % unhx(x)} for x in sorted(d0 - d1)]
+        if meta.get("emptydir"):
+            return gone
         if "tests" not in meta:
             return self.skip("guard")
         fss = [r for r in results if r[0] == "fs"]
@@ -360,7 +382,7 @@ class C09(CleanBase):
             d, nme = path.rsplit(b"/", 1)
             if (d not in visited or b".snap" not in nme) and after.get(p) != before[p]:
                 fails.append({"msg": "file outside Clean's remit touched: %r" % path})
-        return fails
+        return fails + gone
 
     def nontrivial(self, case, ops, results):
         return any(r[0] == "clean" and (r[2]["otests"] != "~" or r[2]["ofiles"] != "~") for r in results)
